@@ -20,6 +20,11 @@ type SimplePage struct {
 	W, H  float64
 	Items []SimpleItem
 	CTM   *[6]float64 // optional "a b c d e f cm" emitted once before the items
+	// Box selects how /MediaBox is written: "" = direct numbers; "indirect" =
+	// the width and height are indirect references to number objects
+	// ([0 0 12 0 R 13 0 R], legal: any array element may be indirect);
+	// "zero" = the degenerate box [0 0 0 0].
+	Box string
 }
 
 // SimplePDF writes a plain single-revision PDF (classic xref, direct lengths,
@@ -57,7 +62,7 @@ func SimplePDF(pages []SimplePage) []byte {
 			fmt.Fprintf(&sb, "BT /%s %s Tf 1 0 0 %s %s %s Tm %s Tj ET\n", font, fnum(it.Size), d, fnum(it.X), fnum(it.Y), e.Buf.String())
 		}
 		objs = append(objs,
-			RevObj{Key: pk, Num: pn, Obj: Dict{{"Type", Name("Page")}, {"Parent", Ref{"root"}}, {"MediaBox", Arr{0, 0, p.W, p.H}},
+			RevObj{Key: pk, Num: pn, Obj: Dict{{"Type", Name("Page")}, {"Parent", Ref{"root"}}, {"MediaBox", boxOf(i, p, &objs, next)},
 				{"Resources", Dict{{"Font", Dict{{"F1", Ref{"f1"}}, {"F2", Ref{"f2"}}}}}}, {"Contents", Ref{ck}}}},
 			RevObj{Key: ck, Num: cn, Obj: &Stream{Raw: []byte(sb.String()), LenMode: "direct"}})
 		kids = append(kids, Ref{pk})
@@ -79,4 +84,17 @@ func fnum(v float64) string {
 		return "0"
 	}
 	return s
+}
+
+// boxOf renders the MediaBox of a simple page in the requested style.
+func boxOf(i int, p SimplePage, objs *[]RevObj, next func() int) Arr {
+	switch p.Box {
+	case "indirect":
+		wk, hk := fmt.Sprintf("boxw%d", i), fmt.Sprintf("boxh%d", i)
+		*objs = append(*objs, RevObj{Key: wk, Num: next(), Obj: p.W}, RevObj{Key: hk, Num: next(), Obj: p.H})
+		return Arr{0, 0, Ref{wk}, Ref{hk}}
+	case "zero":
+		return Arr{0, 0, 0, 0}
+	}
+	return Arr{0, 0, p.W, p.H}
 }
